@@ -2,3 +2,19 @@ add("C01", "other",
     "Bounded SMT: z3 decides, for every input assignment (and, on the systematic family, every gate-type labelling), that each evaluation entry point of the real Circuit and each gate-interpreting table equals the reference semantics; circuits are a bounded enumerated family.",
     "Trusted: CPython, z3, the 60-line reference semantics (vlib/refsem.py), the proxy classes (vlib/symeval.py). Bounded: arity<=6, systematic<=3 inputs/3 gates, seeded<=6 inputs/14 gates.",
     "bounded SMT over real operators/evaluators (z3 proxies), validity vs reference semantics", "DESIGN.md §3 C01")
+add("C15", "other",
+    "Bounded SMT: z3 decides, for all 3^n partial assignments, all refinements/completions and (systematic family) all gate-type labellings, soundness, monotonicity and totality of the real three-valued operators and evaluators.",
+    "Trusted: CPython, z3, proxy classes. Bounded: arity<=6; systematic<=3 inputs/3 gates; seeded<=5 inputs/10 gates. Kleene-optimality not claimed.",
+    "bounded SMT: three-valued z3 proxies through real operators/evaluators; refinement validity queries", "DESIGN.md §3 C15")
+add("C05", "other",
+    "Bounded SMT: the clause list produced by the real Tseytin code is bridged to z3; soundness (A), completeness with evaluated values as witness (B) and uniqueness of the extension (C) are decided over all inputs and all CNF variables per circuit x output selection; is_circuit_satisfiable compared with z3's verdict.",
+    "Trusted: CPython, z3, reference semantics, SAT-solver stub (z3-backed; real PySAT absent). Bounded: template arity<=6, circuits<=6 inputs/14 gates.",
+    "bounded SMT: CNF bridge of real tseytin_transformation output; validity queries", "DESIGN.md §3 C05")
+add("C03", "translation_validation",
+    "Translation validation: for every (circuit, pass pipeline) of a bounded family the real pass is run and z3 decides, over all inputs, that every output of the result equals the corresponding output of the argument (terms from the real evaluator); interface, argument-unchanged, size and well-formedness predicates are checked per instance.",
+    "Trusted: CPython, z3, proxy classes. Bounded: circuits<=6 inputs/14 gates/arity 4; pipelines up to 3 passes, nested, lists, cleanup.",
+    "translation validation with z3 equivalence of real-evaluator terms", "DESIGN.md §3 C03")
+add("C18", "exploration",
+    "Bounded exploration of circuits x passes x pipeline shapes with independent effect predicates (reachability, signatures, unary chains, sequencing equality); the truth-table clause (no two non-input gates equivalent after MergeEquivalentGates) is decided by z3 per gate pair.",
+    "Program dimension is enumerated (no value dimension except pairwise inequivalence). Bounded: <=5 inputs, <=13 gates.",
+    "bounded exploration + z3 pairwise inequivalence", "DESIGN.md §3 C18")
